@@ -33,6 +33,7 @@ def run(prog, tier):
     R.trust("range(a, b) enumerates a..b-1; max() returns its largest argument",
             "TseitinFormula(graph) declares exactly one variable per edge of graph, in the order of new_graph_edges(graph)")
     check_numvar(R, prog)
+    check_check_first(R, prog)
     check_alloc_guard(R, prog)
     check_group_ids(R, prog)
     check_provenance(R, prog)
@@ -124,6 +125,43 @@ def check_numvar(R, prog):
             R.ok("NUMVAR-MONOTONE", "%s.update_variable_number only raises the count" % cls, fu.key)
         else:
             R.bad(F("NUMVAR-MONOTONE", fu, "%s.update_variable_number" % cls, "must be `self._numvar = max(self._numvar, new_value)`"))
+
+
+def check_check_first(R, prog):
+    """CHECK-FIRST: in every builder with a ``check`` flag, the block ``if check: _check_and_update(literals)`` dominates every
+    insertion the builder makes with checking switched off -- otherwise check=True would not validate / count those literals"""
+    n = 0
+    for mod, cls in (("cnfgen.formula.linear", "CNFLinear"), ("cnfgen.formula.baseopb", "BaseOPB")):
+        ci = prog.cls(mod, cls)
+        for name, fi in sorted(ci.methods.items()):
+            if "check" not in fi.params:
+                continue
+            stmts = stmts_in(fi.node)
+            unchecked = []
+            for s in stmts:
+                for c in [x for x in ast.walk(s) if isinstance(x, ast.Call)] if not isinstance(s, (ast.If, ast.For, ast.While, ast.Try, ast.With)) else []:
+                    if isinstance(c.func, ast.Attribute) and src(c.func.value) == "self" and \
+                            any(k.arg == "check" and is_const(k.value, False) for k in c.keywords):
+                        unchecked.append((s, c))
+            if not unchecked:
+                continue
+            n += 1
+            cfg = CFG(fi.node)
+            guards = [s for s in stmts if isinstance(s, ast.If) and src(s.test) == "check" and
+                      any(isinstance(x, ast.Call) and call_name(x) == "self._check_and_update" for b in s.body for x in ast.walk(b))]
+            bad = None
+            for s, c in unchecked:
+                if not any(cfg.dominates(cfg.node_of(g), cfg.node_of(s)) for g in guards):
+                    bad = (s, c)
+                    break
+            if bad:
+                R.bad(F("CHECK-FIRST", fi, "%s.%s unchecked insertion before the check" % (cls, name),
+                        "`%s` inserts with check=False on a path that has not passed `if check: self._check_and_update(..)`: with "
+                        "check=True these literals are neither validated nor counted, so the formula can mention variables above its "
+                        "declared count" % src(bad[1])[:70], bad[0]))
+            else:
+                R.ok("CHECK-FIRST", "%s.%s: %d unchecked insertions all dominated by the `if check:` block" % (cls, name, len(unchecked)), fi.key)
+    R.floor("CHECK-FIRST", n, 3)
 
 
 def monotone_expr(fi, v):
